@@ -16,12 +16,13 @@ BUILT = {
             "A reservation-server stub places its budget anywhere the model allows (early, late, early-then-late, random, over-provisioned) over 8 periods, plus static cyclic slot-table servers; every window of every length up to 4P is metered and every demand up to 3Q drained from every instant. Minimum metered service must EQUAL provided_service and maximum drain time must EQUAL service_time for the closed-form and for the trait-default implementation; exhaustive over all (Q,D,P) with P <= 9 (quick) / 16 (thorough) plus random larger ones."),
     "C10": ("3.7", "deterministic simulation: event sources following each model's documented process with injected delays, stretching, reordering and merging; window counts over the recorded history",
             "Event-source stubs generate streams from the process each arrival model documents (not from the library's curve): phases, gap stretching, per-event release jitter with reordering, bursts where delta-min is 0, nested per-event delays for Propagated/clone_with_jitter, merged component streams. Every window [t_i, t_j] of the recorded history is counted against number_arrivals; the maximal-rate stream of Periodic/Sporadic must attain it."),
+    "C12": ("3.8", "deterministic simulation: recorded traces and documented-process event streams of source models checked in every window against the derived objects; dense streams of derived objects against the source; delta_min_iter duality",
+            "Recorded event traces (bursts, simultaneous events) are fed to Curve::from_trace and every window of every length of the trace is counted against the inferred curve. For derived objects (from_arrival_bound(_until), From impls, ArrivalCurvePrefix::from_arrival_bound_until) streams of the source's documented process are checked in every window against the derived object up to 6x the covered prefix, the derived object's dense stream against the source inside the prefix, and the two number_arrivals are compared along the scan (equal inside the covered prefix, derived >= source wherever the source is exact). delta_min_iter items are checked for duality with number_arrivals."),
 }
 
 NOT_YET = {
     "C04": "claimed in DESIGN.md section 3.4; check not built yet (in progress)",
     "C05": "claimed in DESIGN.md section 3.5; check not built yet (in progress)",
-    "C12": "claimed in DESIGN.md section 3.8; check not built yet (in progress)",
     "C13": "claimed in DESIGN.md section 3.9; check not built yet (in progress)",
     "C14": "claimed in DESIGN.md section 3.10; check not built yet (in progress)",
 }
